@@ -245,7 +245,7 @@ def cell_ok(cs, v):
             return v.endswith(a[0])
         if k == "str_length":
             return a[0] <= len(v) <= a[1]
-    except TypeError:
+    except (TypeError, AttributeError):  # check does not fit the physical type: no constraint on the pool
         return True
     return True
 
